@@ -63,6 +63,9 @@ var closerConsumers = map[string]map[int]string{
 	"http.NewRequest":            {2: "on-success-moved"},
 }
 
+// closerWrappers: constructors whose result's Close closes the argument at the given index.
+var closerWrappers = map[string]int{"sha256verifier.New": 2}
+
 func shortKey(info *types.Info, call *ast.CallExpr) string {
 	f := Callee(info, call)
 	if f == nil {
@@ -101,20 +104,23 @@ func runCloserRulesF(c *Ctx, rule string, entries []closerEntry, keep func(what 
 			continue
 		}
 		m := map[int]string{}
-		idx := 0
-		for _, fld := range fi.Decl.Type.Params.List {
-			for _, n := range fld.Names {
-				for _, o := range e.owned {
-					if o == n.Name {
-						m[idx] = e.policy
-					}
-				}
-				idx++
+		for _, o := range e.owned {
+			if idx, _, _ := ownedParam(fi, o); idx >= 0 {
+				m[idx] = e.policy
 			}
 		}
 		g.consume[e.key] = m
 	}
 	g.base = NewBase(Hooks{Call: g.call, Assign: g.assign, Return: g.ret, Exit: g.exit, Stmt: g.stmt})
+	// helpers split off an analysed function are interpreted in its context; functions with an
+	// ownership summary of their own (the entries) are not
+	isEntry := map[string]bool{}
+	for _, e := range allEntries {
+		isEntry[e.key] = true
+	}
+	g.base.AutoInline = func(h *FuncInfo) bool {
+		return !isEntry[h.Key] && !ast.IsExported(h.Decl.Name.Name) && strings.Contains(h.Pkg.PkgPath, modPath) && hasCloserSig(h)
+	}
 	// a resource whose variable is found to be nil does not exist on that path;
 	// remember it at the test (loop-scoped variables are forgotten per iteration)
 	g.base.H.PostCond = func(x *Exec, cond ast.Expr, truth bool, outs []St) []St {
@@ -156,23 +162,21 @@ func (g *closerRules) analyse(fl *FlowFn, e closerEntry) {
 	init := newSt()
 	x := NewExec(fl, g.base)
 	for _, o := range e.owned {
-		parts := strings.SplitN(o, ".", 2)
-		if fl.Type.Params != nil {
-			for _, fld := range fl.Type.Params.List {
-				for _, n := range fld.Names {
-					if n.Name == parts[0] {
-						if obj := fl.Info.Defs[n]; obj != nil {
-							t := objID(obj)
-							if len(parts) == 2 {
-								t += "." + parts[1]
-							}
-							id := "param:" + o
-							init = init.Set("rc:"+t, id).Set("r:"+id, "open").Set("n:"+t, "nonnil").Set("own:"+id, e.policy).Set("what:"+id, "parameter "+o).Set("name:"+id, o)
-						}
-					}
-				}
-			}
+		fi := g.c.P.Func(e.key)
+		if fi == nil {
+			continue
 		}
+		idx, obj, field := ownedParam(fi, o)
+		if idx < 0 || obj == nil {
+			g.c.R.Fail(g.rule, g.c.Cfg+fl.Name+":owned-parameter:"+o, "", "the closer parameter "+o+" of "+e.key+" was not found (neither by name nor by type)")
+			continue
+		}
+		t := objID(obj)
+		if field != "" {
+			t += "." + field
+		}
+		id := "param:" + o
+		init = init.Set("rc:"+t, id).Set("r:"+id, "open").Set("n:"+t, "nonnil").Set("own:"+id, e.policy).Set("what:"+id, "parameter "+o).Set("name:"+id, o)
 	}
 	x.Run(init)
 	if x.Aborted != "" {
@@ -437,6 +441,13 @@ func (g *closerRules) assign(x *Exec, as *ast.AssignStmt, s St) []St {
 		case *ast.CallExpr:
 			// wrappers that own their argument: x := io.NopCloser(y) does not apply
 			// (NopCloser does not close); dec.IOReadCloser() etc. are separate resources.
+			// The digest verifier closes the writer it wraps: closing it closes that resource.
+			if ai, ok := closerWrappers[shortKey(x.Fn.Info, r)]; ok && ai < len(r.Args) {
+				id, rs := g.res(x, r.Args[ai], s)
+				if lt, ok2 := b.Term(x, as.Lhs[i], s); id != "" && rs != "" && ok2 {
+					s = s.Set("rc:"+lt, id)
+				}
+			}
 		}
 	}
 	return []St{s}
@@ -531,6 +542,26 @@ func (g *closerRules) stmt(x *Exec, n ast.Node, s St) ([]St, bool) {
 		return []St{st}, true
 	}
 	if gs, ok := n.(*ast.GoStmt); ok {
+		// go worker(f, pw): a named function started as a goroutine owns the resources it is handed
+		// and closes (as the closure form is judged: a Close on that parameter somewhere in its body)
+		if _, isLit := gs.Call.Fun.(*ast.FuncLit); !isLit {
+			if h := g.c.P.Func(shortKey(x.Fn.Info, gs.Call)); h != nil && h.Decl.Body != nil {
+				st := s.Set("gostarted", "1")
+				for i, a := range gs.Call.Args {
+					id, rs := g.res(x, a, st)
+					po := paramObj(h, i)
+					if id == "" || rs != "open" || po == nil {
+						continue
+					}
+					for _, c := range callsIn(h.Decl.Body, true) {
+						if sel, ok := c.Fun.(*ast.SelectorExpr); ok && (sel.Sel.Name == "Close" || sel.Sel.Name == "CloseWithError") && identObj(h.Pkg.TypesInfo, sel.X) == po {
+							st = st.Set("r:"+id, "moved")
+						}
+					}
+				}
+				return []St{st}, true
+			}
+		}
 		if lit, ok := gs.Call.Fun.(*ast.FuncLit); ok {
 			st := s.Set("gostarted", "1")
 			for _, c := range callsIn(lit.Body, true) {
@@ -636,4 +667,77 @@ func (g *closerRules) exit(x *Exec, ret *ast.ReturnStmt, s St) {
 		g.report(x, !leaked, fmt.Sprintf("%s(%s)", name, id), pos, fmt.Sprintf("%s %s is closed, returned or handed to an owner on every path", what, name),
 			fmt.Sprintf("%s %s is still open at this exit and nobody owns it (file descriptor / connection leak)", what, name))
 	}
+}
+
+// ownedParam resolves an owned-parameter spec ("f", "rc", "item.Rc") to the parameter's index and
+// object: by name, and when a refactoring renamed it, by type (the *os.File, the io.ReadCloser,
+// the struct that has the named field).
+func ownedParam(fi *FuncInfo, spec string) (int, types.Object, string) {
+	parts := strings.SplitN(spec, ".", 2)
+	field := ""
+	if len(parts) == 2 {
+		field = parts[1]
+	}
+	for i := 0; ; i++ {
+		o := paramObj(fi, i)
+		if o == nil {
+			break
+		}
+		if o.Name() == parts[0] {
+			return i, o, field
+		}
+	}
+	for i := 0; ; i++ {
+		o := paramObj(fi, i)
+		if o == nil {
+			break
+		}
+		ts := o.Type().String()
+		switch {
+		case field != "":
+			if st, ok := o.Type().Underlying().(*types.Struct); ok {
+				for k := 0; k < st.NumFields(); k++ {
+					if st.Field(k).Name() == field {
+						return i, o, field
+					}
+				}
+			}
+		case parts[0] == "f" && ts == "*os.File":
+			return i, o, ""
+		case parts[0] == "rc" && ts == "io.ReadCloser":
+			return i, o, ""
+		}
+	}
+	return -1, nil, ""
+}
+
+// hasCloserSig: a parameter or result of h can be closed (has a Close method): only such helpers
+// matter to the ownership analysis and are interpreted in their caller's context.
+func hasCloserSig(h *FuncInfo) bool {
+	sig, ok := h.Obj.Type().(*types.Signature)
+	if !ok {
+		return false
+	}
+	closable := func(t types.Type) bool {
+		for _, tt := range []types.Type{t, types.NewPointer(t)} {
+			ms := types.NewMethodSet(tt)
+			for i := 0; i < ms.Len(); i++ {
+				if ms.At(i).Obj().Name() == "Close" {
+					return true
+				}
+			}
+		}
+		return false
+	}
+	for i := 0; i < sig.Params().Len(); i++ {
+		if closable(sig.Params().At(i).Type()) {
+			return true
+		}
+	}
+	for i := 0; i < sig.Results().Len(); i++ {
+		if closable(sig.Results().At(i).Type()) {
+			return true
+		}
+	}
+	return false
 }
